@@ -69,7 +69,7 @@ FUNCTIONS = list(_s.FUNCTIONS) + [
         assigns *this, vs_exc, vs_exc_code, g_hit_end, g_j, g_w, g_app_src
         # C18: every byte read lies in [str, str+len): the text is an object of exactly len bytes, so any other read fails a bounds check.
         # the raw text is remembered as given (toString() of a parsed media type returns it)
-        ensures this->raw_.size == len
+        ensures this->raw_.size == len && this->raw_.src == str
         # text that is not a media type is rejected with an unsupported-media-type error (or whatever the parameter map raises)
         ensures vs_exc == 0 || (vs_exc == VS_EXC_HTTP_ERROR && vs_exc_code == Pistache_Http_Code_Unsupported_Media_Type) || vs_exc == VS_EXC_OTHER_STD
         ensures vs_exc == 0 ==> (this->top_ != Pistache_Http_Mime_Type_None && this->sub_ != Pistache_Http_Mime_Subtype_None)
